@@ -213,6 +213,8 @@ def step (s : St) (op : List String) (impl : Option (List String)) : St × Strin
     | some _, none => "FAIL:parse"
     | some _, some o => firstFail (f o)
   let bad : St × String × String := (s, "bad-op", "-")
+  -- a call that did not return is a failure of its own (every function here must terminate)
+  if (match impl with | some t => t.contains "hang" | none => false) then (s, echo impl, "FAIL:terminates") else
   match exploreStep op impl with
   | some (m, v) => (s, m, v)
   | none =>
